@@ -28,6 +28,12 @@ type c06Topo struct {
 	topo                                           *CPUTopology
 }
 
+// violation messages must be identical when a case is re-run (rapid only minimizes a failure it can reproduce with the same
+// message), so the topology is printed by its dimensions, never with the pointer
+func (tp c06Topo) String() string {
+	return fmt.Sprintf("{sockets:%d numaPerSocket:%d coresPerNUMA:%d threads:%d}", tp.Sockets, tp.NodesPerSocket, tp.CoresPerNode, tp.Threads)
+}
+
 func c06BuildTopo(s, n, c, p int) *CPUTopology {
 	topo := &CPUTopology{NumSockets: s, NumNodes: n * s, NumCores: c * n * s, NumCPUs: p * c * n * s, CPUDetails: make(map[int]CPUInfo)}
 	var nodeID, coreID, cpuID int
@@ -871,8 +877,8 @@ func c06ManagerHistoryProp(rec *vk.Rec, ext bool) func(*rapid.T) {
 						flapReleases++
 						releasedWhileGone = true
 						hist = append(hist, fmt.Sprintf("release %s (no topology)", uid))
-						if _, still := rm.GetNodeAllocation(nodeName).allocatedPods[uid]; still {
-							dead = c.Violation(t, "history:release-lost-while-topology-missing", "pod %s was released while the node had no topology but is still recorded in the ledger (cpus %v); history=%v", uid, rm.GetNodeAllocation(nodeName).allocatedPods[uid].CPUSet, hist)
+						if left, still := rm.GetNodeAllocation(nodeName).allocatedPods[uid]; still {
+							dead = c.Violation(t, "history:release-lost-while-topology-missing", "pod %s was released while the node had no topology but is still recorded in the ledger (%s); history=%v", uid, c06AllocStr(&left), hist)
 							return
 						}
 					case 2:
